@@ -438,6 +438,7 @@ type crashPlanT struct {
 	// torn append in progress
 	pendingTorn bool
 	sizes       map[string]int64
+	crashCh     chan struct{}
 }
 
 var plan = &crashPlanT{tap: -1, torn: -1}
@@ -492,7 +493,8 @@ func Tap(post bool) {
 		// the torn call has returned (post tap, or the next call if there was none)
 		p.armed = false
 		applyTorn()
-		panic(crashSignal{})
+		p.pendingTorn = false
+		die(p)
 	}
 	if post {
 		return
@@ -509,7 +511,13 @@ func Tap(post bool) {
 		return
 	}
 	p.armed = false
-	panic(crashSignal{})
+	die(p)
+}
+
+// die stops the workload goroutine at the crash point, for good.
+func die(p *crashPlanT) {
+	p.crashCh <- struct{}{}
+	select {}
 }
 
 var crashableNative = func(dir string, f func()) (string, bool) {
@@ -518,19 +526,25 @@ var crashableNative = func(dir string, f func()) (string, bool) {
 	p.armed = true
 	p.count = 0
 	crashed := false
-	func() {
-		defer func() {
-			p.armed = false
-			if r := recover(); r != nil {
-				if _, ok := r.(crashSignal); ok {
-					crashed = true
-					return
-				}
-				panic(r)
-			}
-		}()
+	// The workload runs on its own goroutine. At the crash point that goroutine
+	// simply stops for good (no unwinding, so no deferred clean-up of klevdb runs,
+	// exactly as when a process is killed); the harness continues here.
+	p.crashCh = make(chan struct{})
+	done := make(chan any, 1)
+	go func() {
+		defer func() { done <- recover() }()
 		f()
 	}()
+	select {
+	case r := <-done:
+		p.armed = false
+		if r != nil {
+			panic(r)
+		}
+	case <-p.crashCh:
+		p.armed = false
+		crashed = true
+	}
 	if p.pendingTorn {
 		// the workload ended before another tap: finish the torn append now
 		p.pendingTorn = false
